@@ -1396,7 +1396,7 @@ struct RefAtom { kind: String, bonds: Vec<(usize, usize)>, span: (usize, usize),
 /// the graph a token sequence denotes: Ok(atoms, rnum spans, bond cursors) or Err(()) when a ring digit is
 /// unmatched / irreconcilable / self / duplicate (the builder's own error cases, C10)
 #[allow(clippy::type_complexity)]
-fn denote(t: &Tables, chars: &[char], toks: &[Tok]) -> Option<Result<(Vec<RefAtom>, Vec<(usize, usize)>, Vec<((usize, usize), usize)>), ()>> {
+fn denote(_t: &Tables, chars: &[char], toks: &[Tok]) -> Option<Result<(Vec<RefAtom>, Vec<(usize, usize)>, Vec<((usize, usize), usize)>), ()>> {
     let rev = |k: usize| match k { 6 => 7, 7 => 6, x => x };
     let mut atoms: Vec<RefAtom> = Vec::new();
     let mut rnums: Vec<(usize, usize)> = Vec::new();
@@ -1415,9 +1415,9 @@ fn denote(t: &Tables, chars: &[char], toks: &[Tok]) -> Option<Result<(Vec<RefAto
             Tok::Bond(k, p) => { bond = Some((*k, *p)) }
             Tok::Atom(a, b) => {
                 let text: String = chars[*a..*b].iter().collect();
-                // the atom's own attributes: read the token alone
-                let evs = read_events(t, &text).ok()?;
-                let mut kind = match evs.as_slice() { [Ev::Root(k)] => k.clone(), _ => return None };
+                // the atom's own attributes: the token read by the independent recogniser (refsmiles::atom_value), not by
+                // the library
+                let mut kind = crate::refsmiles::atom_value(&text)?;
                 let id = atoms.len();
                 let mut bonds = Vec::new();
                 if !dot {
